@@ -98,7 +98,7 @@ macro "frames" : tactic => `(tactic| (
 
 macro "rest_tac" : tactic => `(tactic| (
   all_goals (simp only [upd, mayPop, mayPopAll, Prot, released] at *)
-  all_goals (first | grind | (trace_state; sorry))))
+  all_goals grind))
 
 set_option hygiene false in
 macro "obt" : tactic => `(tactic|
@@ -130,7 +130,7 @@ theorem inv_pushSt (c : Cfg) (wf : c.WF) {s s' : State} (h : Inv c s) (t)
     · frames
     · frames
     all_goals (simp only [upd, mayPop, mayPopAll, Prot, released, List.mem_append, List.mem_singleton] at *)
-    all_goals (first | grind | (trace_state; sorry))
+    all_goals grind
   all_goals (first | (simp at st; done) | skip)
 
 
@@ -162,7 +162,7 @@ theorem inv_pushCas (c : Cfg) (wf : c.WF) {s s' : State} (h : Inv c s) (t)
           rw [← hhd]
           exact hh.step t (.push n) (by simp [apply, head_nz_iff hc])
         all_goals (simp only [upd, mayPop, mayPopAll, Prot, released, List.mem_cons] at *)
-        all_goals (first | grind | (trace_state; sorry))
+        all_goals grind
       · simp only [Option.some.injEq] at st; subst st
         constructor
         · frames
